@@ -1029,6 +1029,485 @@ pub fn check_c08(ix: &Ix<'_>, v: &mut Vec<Violation>) {
     }
 }
 
+
+// ------------------------------------------------------------------------------------------
+// C11: inbound packet identifiers stay reserved until their exchange is acknowledged
+
+#[derive(Clone, Copy, Debug, PartialEq, Eq)]
+enum ReqKind {
+    Pub1,
+    Pub2,
+    Sub,
+    Unsub,
+}
+
+impl ReqKind {
+    fn name(self) -> &'static str {
+        match self {
+            ReqKind::Pub1 => "PUBLISH1",
+            ReqKind::Pub2 => "PUBLISH2",
+            ReqKind::Sub => "SUBSCRIBE",
+            ReqKind::Unsub => "UNSUBSCRIBE",
+        }
+    }
+    fn closing(self) -> &'static str {
+        match self {
+            ReqKind::Pub1 => "PUBACK",
+            ReqKind::Pub2 => "PUBCOMP",
+            ReqKind::Sub => "SUBACK",
+            ReqKind::Unsub => "UNSUBACK",
+        }
+    }
+}
+
+#[derive(Clone, Copy, Debug, PartialEq, Eq)]
+enum Fate {
+    Handled(u64),
+    Refused(u64),
+    Unknown,
+}
+
+/// Did the peer send a PUBREL for `pid` that cannot belong to the holder's exchange: any PUBREL when
+/// the holder is not a QoS 2 publish, or one sent before the endpoint wrote the holder's PUBREC.
+fn stray_pubrel(ix: &Ix<'_>, pid: u16, holder_seq: u64, holder_is_q2: bool, before: u64) -> bool {
+    let pubrec = ix.eps.iter().find(|e| e.seq > holder_seq && matches!(&e.pkt, Pkt::PubRec(a) if a.pid == pid)).map(|e| e.seq);
+    ix.sent.iter().any(|x| {
+        x.seq < before
+            && matches!(&x.pkt, Some(Pkt::PubRel(a)) if a.pid == pid)
+            && (!holder_is_q2 || pubrec.is_none_or(|p| x.seq < p))
+    })
+}
+
+pub fn check_c11(ix: &Ix<'_>, v: &mut Vec<Violation>) {
+    let role = ix.role();
+    let v5 = ix.ver == Ver::V5;
+    let conn = 0usize;
+    let first_end = ix
+        .stops
+        .iter()
+        .filter(|s| s.1 == conn)
+        .map(|s| s.0)
+        .chain(ix.conn_done.iter().filter(|c| c.1 == conn).map(|c| c.0))
+        .chain(ix.ep_closed.iter().filter(|c| c.1 == conn).map(|c| c.0))
+        .min();
+    let settled = ix.out.plan.ending != Ending::Stop && ix.settle_seq.is_some() && !ix.out.budget_hit && ix.out.panic.is_none();
+
+    struct Req {
+        seq: u64,
+        delivered: Option<u64>,
+        kind: ReqKind,
+        pid: u16,
+        tag: String,
+        fate: Fate,
+        gate: Option<usize>,
+    }
+    let mut reqs: Vec<Req> = Vec::new();
+    for s in ix.sent.iter().filter(|s| s.conn == conn && !s.corrupt) {
+        let (kind, pid, tag) = match &s.pkt {
+            Some(Pkt::Publish(p)) if p.qos == 1 => (ReqKind::Pub1, p.pid.unwrap_or(0), p.topic.clone()),
+            Some(Pkt::Publish(p)) if p.qos == 2 => (ReqKind::Pub2, p.pid.unwrap_or(0), p.topic.clone()),
+            Some(Pkt::Subscribe(x)) => (ReqKind::Sub, x.pid, x.filters[0].0.clone()),
+            Some(Pkt::Unsubscribe(x)) => (ReqKind::Unsub, x.pid, x.filters[0].clone()),
+            _ => continue,
+        };
+        reqs.push(Req { seq: s.seq, delivered: s.delivered, kind, pid, tag, fate: Fate::Unknown, gate: None });
+    }
+    // fate of every request
+    for r in &mut reqs {
+        let gate = match r.kind {
+            ReqKind::Pub1 | ReqKind::Pub2 => ix.pub_gates(conn).find(|(_, seen)| seen.topic == r.tag).map(|(g, _)| g),
+            ReqKind::Sub | ReqKind::Unsub => ix.gates.iter().find(|g| {
+                g.conn == conn && matches!(&g.desc, GateDesc::Proto { brief, .. } if brief.ends_with(&format!(" {}", r.tag)) && brief.starts_with(r.kind.name()))
+            }),
+        };
+        // (control messages still buffered when the connection ends are flushed through the protocol
+        // service during shutdown: such invocations are not "deliveries" of the request)
+        if let Some(g) = gate.filter(|g| first_end.is_none_or(|e| g.enter <= e)) {
+            r.fate = Fate::Handled(g.enter);
+            r.gate = Some(g.id);
+            continue;
+        }
+    }
+    // wire-side model: an id is open from the request until the endpoint wrote the closing ack.
+    // Responses are written in request order, so the k-th handled exchange of one (id, closing
+    // packet type) is closed by the k-th such closing packet (refusals 0x91 / 0x92 excluded).
+    #[derive(Clone, Copy, PartialEq, Eq, PartialOrd, Ord)]
+    enum Close {
+        PubAck,
+        PubRecNeg,
+        PubComp,
+        SubAck,
+        UnsubAck,
+    }
+    let close_class = |r: &Req| -> Close {
+        match r.kind {
+            ReqKind::Pub1 => Close::PubAck,
+            ReqKind::Pub2 => {
+                if r.gate.is_some_and(|g| matches!(ix.gates[g].exit, Some((_, Outcome::Neg(c))) if c >= 0x80)) {
+                    Close::PubRecNeg
+                } else {
+                    Close::PubComp
+                }
+            }
+            ReqKind::Sub => Close::SubAck,
+            ReqKind::Unsub => Close::UnsubAck,
+        }
+    };
+    let mut acks: BTreeMap<(u16, Close), Vec<u64>> = BTreeMap::new();
+    for e in ix.eps.iter().filter(|e| e.conn == conn) {
+        let (pid, class) = match &e.pkt {
+            Pkt::PubAck(a) if a.code != 0x91 => (a.pid, Close::PubAck),
+            Pkt::PubRec(a) if a.code >= 0x80 && a.code != 0x91 => (a.pid, Close::PubRecNeg),
+            Pkt::PubComp(a) if a.code != 0x92 => (a.pid, Close::PubComp),
+            Pkt::SubAck(x) if !(v5 && !x.codes.is_empty() && x.codes.iter().all(|c| *c == 0x91)) => (x.pid, Close::SubAck),
+            Pkt::UnsubAck(x) if !(v5 && !x.codes.is_empty() && x.codes.iter().all(|c| *c == 0x91)) => (x.pid, Close::UnsubAck),
+            _ => continue,
+        };
+        acks.entry((pid, class)).or_default().push(e.seq);
+    }
+    let mut nth: BTreeMap<(u16, Close), usize> = BTreeMap::new();
+    let closed_of: Vec<Option<u64>> = reqs
+        .iter()
+        .map(|r| {
+            if !matches!(r.fate, Fate::Handled(_)) {
+                return None;
+            }
+            let key = (r.pid, close_class(r));
+            let k = nth.entry(key).or_insert(0);
+            let c = acks.get(&key).and_then(|l| l.get(*k)).copied();
+            *k += 1;
+            c
+        })
+        .collect();
+    if v5 {
+        // refusals: the ack type proper to the packet carrying Packet-Identifier-in-use (0x91). They are
+        // written at once (not queued behind earlier responses), so a refusal is attributed to an
+        // unhandled request sent before it - preferring one that has a possible holder (an earlier
+        // request with the id that is not known to be closed), so that a legitimate reading of the
+        // history is chosen whenever there is one.
+        for e in ix.eps.iter().filter(|e| e.conn == conn) {
+            let (pid, kinds): (u16, &[ReqKind]) = match &e.pkt {
+                Pkt::PubAck(a) if a.code == 0x91 => (a.pid, &[ReqKind::Pub1, ReqKind::Pub2]),
+                Pkt::PubRec(a) if a.code == 0x91 => (a.pid, &[ReqKind::Pub2]),
+                Pkt::SubAck(x) if !x.codes.is_empty() && x.codes.iter().all(|c| *c == 0x91) => (x.pid, &[ReqKind::Sub]),
+                Pkt::UnsubAck(x) if !x.codes.is_empty() && x.codes.iter().all(|c| *c == 0x91) => (x.pid, &[ReqKind::Unsub]),
+                _ => continue,
+            };
+            let cands: Vec<usize> = (0..reqs.len())
+                .filter(|i| reqs[*i].fate == Fate::Unknown && reqs[*i].pid == pid && kinds.contains(&reqs[*i].kind) && reqs[*i].delivered.is_some_and(|d| d < e.seq))
+                .collect();
+            let with_holder = cands.iter().copied().find(|i| {
+                (0..*i).any(|j| {
+                    reqs[j].pid == pid
+                        && match reqs[j].fate {
+                            Fate::Handled(_) => closed_of[j].is_none_or(|c| c > reqs[*i].seq),
+                            Fate::Unknown => true,
+                            Fate::Refused(_) => false,
+                        }
+                })
+            });
+            if let Some(i) = with_holder.or(cands.first().copied()) {
+                reqs[i].fate = Fate::Refused(e.seq);
+            }
+        }
+    }
+    // v3 ends the connection on the first refused request. Requests are dispatched in arrival order,
+    // so the refused one is the first request that never reached a handler and was delivered before
+    // the stop (its kind is named in the violation).
+    if !v5
+        && let Some((sq, _, StopClass::Protocol(msg))) = ix.stops.iter().find(|s| s.1 == conn)
+        && msg.contains("PacketId_2_2_1_3")
+    {
+        let want = if msg.contains("_Pub)") {
+            [ReqKind::Pub1, ReqKind::Pub2]
+        } else if msg.contains("_Sub)") {
+            [ReqKind::Sub, ReqKind::Sub]
+        } else {
+            [ReqKind::Unsub, ReqKind::Unsub]
+        };
+        // candidates: not handled, delivered before the stop, of the kind named in the violation; the
+        // refused one collides with an earlier request of the same id
+        let cands: Vec<usize> = (0..reqs.len())
+            .filter(|i| reqs[*i].fate == Fate::Unknown && reqs[*i].delivered.is_some_and(|d| d < *sq) && want.contains(&reqs[*i].kind))
+            .collect();
+        let colliding = cands.iter().copied().find(|i| (0..*i).any(|j| reqs[j].pid == reqs[*i].pid && closed_of[j].is_none_or(|c| c > reqs[*i].seq)));
+        if let Some(i) = colliding.or(cands.first().copied()) {
+            reqs[i].fate = Fate::Refused(*sq);
+        }
+    }
+
+    for i in 0..reqs.len() {
+        let (pid, seq, kind) = (reqs[i].pid, reqs[i].seq, reqs[i].kind);
+        if first_end.is_some_and(|e| seq > e) {
+            break;
+        }
+        // earlier requests that may hold the id when this one is sent: accepted (or possibly accepted and
+        // waiting for their handler) and not closed on the wire yet
+        let holders: Vec<usize> = (0..i)
+            .filter(|j| {
+                let e = &reqs[*j];
+                e.pid == pid
+                    && e.delivered.is_some()
+                    && match e.fate {
+                        Fate::Refused(_) => false,
+                        Fate::Unknown => true,
+                        Fate::Handled(_) => closed_of[*j].is_none_or(|c| c > seq),
+                    }
+            })
+            .collect();
+        if holders.is_empty() {
+            // (A) fresh identifier: the request must be accepted
+            match reqs[i].fate {
+                Fate::Handled(_) => {}
+                Fate::Refused(sq) => viol(
+                    v,
+                    "C11",
+                    format!("C11/free-id-refused/{role}/{}", kind.name()),
+                    format!("{} #{pid} ({}) was refused as id-in-use although every earlier exchange with that id had been acknowledged on the wire", kind.name(), reqs[i].tag),
+                    sq,
+                ),
+                Fate::Unknown => {
+                    if settled && first_end.is_none() && reqs[i].delivered.is_some() && ix.fault("fin") + ix.fault("rst") == 0 {
+                        viol(v, "C11", format!("C11/free-id-not-handled/{role}/{}", kind.name()), format!("{} #{pid} ({}) with a free id was neither handled nor refused", kind.name(), reqs[i].tag), ix.last_seq);
+                    }
+                }
+            }
+            continue;
+        }
+        let fate_seq = match reqs[i].fate {
+            Fate::Handled(s) | Fate::Refused(s) => s,
+            Fate::Unknown => continue,
+        };
+        // is one of the holders certainly still in use when this request meets its fate?
+        for h in holders {
+            let holder_kind = reqs[h].kind;
+            let Some(g) = reqs[h].gate.map(|g| &ix.gates[g]) else { continue };
+            let opened = g.open.as_ref().map(|o| o.0).or(g.exit.as_ref().filter(|_| g.immediate).map(|x| x.0));
+            let handler_pending = opened.is_none_or(|o| o > fate_seq);
+            let certainly_in_use = if holder_kind == ReqKind::Pub2 {
+                // in use until PUBCOMP: certainly so while no PUBREL for the id has been sent (a peer that
+                // sends PUBREL before it has seen PUBREC makes the end of the exchange ambiguous)
+                let rel = ix.sent.iter().find(|x| matches!(&x.pkt, Some(Pkt::PubRel(a)) if a.pid == pid) && x.seq < fate_seq).map(|x| x.seq);
+                let neg = matches!(g.exit, Some((_, Outcome::Neg(_) | Outcome::Err)));
+                !neg && rel.is_none()
+            } else {
+                handler_pending
+            };
+            if certainly_in_use && let Fate::Handled(sq) = reqs[i].fate {
+                viol(
+                    v,
+                    "C11",
+                    format!(
+                        "C11/in-use-id-delivered/{role}/{}-then-{}{}",
+                        holder_kind.name(),
+                        kind.name(),
+                        if stray_pubrel(ix, pid, reqs[h].seq, holder_kind == ReqKind::Pub2, sq) { "/after-stray-pubrel" } else { "" }
+                    ),
+                    format!("{} #{pid} ({}) reached a handler while {} #{pid} ({}) was still unacknowledged", kind.name(), reqs[i].tag, holder_kind.name(), reqs[h].tag),
+                    sq,
+                );
+                break;
+            }
+        }
+    }
+
+    // (D) PUBREL for an identifier that is not in use
+    for s in ix.sent.iter().filter(|s| s.conn == conn && !s.corrupt) {
+        let Some(Pkt::PubRel(a)) = &s.pkt else { continue };
+        let Some(dseq) = s.delivered else { continue };
+        if first_end.is_some_and(|e| dseq > e) {
+            continue;
+        }
+        // any earlier request with this id whose exchange might still be open (or ambiguous)?
+        let maybe_in_use = (0..reqs.len()).any(|j| {
+            let r = &reqs[j];
+            r.pid == a.pid && r.seq < s.seq && matches!(r.fate, Fate::Handled(_) | Fate::Unknown) && closed_of[j].is_none_or(|c| c > s.seq)
+        });
+        if maybe_in_use {
+            continue;
+        }
+        if v5 {
+            let comp = ix.eps.iter().find(|e| e.conn == conn && e.seq > s.seq && matches!(&e.pkt, Pkt::PubComp(x) if x.pid == a.pid));
+            match comp {
+                Some(e) => {
+                    if let Pkt::PubComp(x) = &e.pkt
+                        && x.code != 0x92
+                    {
+                        viol(v, "C11", format!("C11/stray-pubrel-accepted/{role}"), format!("PUBREL #{} for an id that is not in use was answered with PUBCOMP 0x{:02x}", a.pid, x.code), e.seq);
+                    }
+                }
+                None => {
+                    if settled && first_end.is_none() && ix.stops.is_empty() {
+                        viol(v, "C11", format!("C11/stray-pubrel-unanswered/{role}"), format!("PUBREL #{} for an id that is not in use got no PUBCOMP 0x92", a.pid), ix.last_seq);
+                    }
+                }
+            }
+        } else if settled && first_end.is_none() {
+            viol(v, "C11", format!("C11/stray-pubrel-accepted/{role}"), format!("PUBREL #{} for an id that is not in use did not end the v3 connection", a.pid), ix.last_seq);
+        }
+    }
+}
+
+pub fn probe_c11(ix: &Ix<'_>) -> bool {
+    // an identifier was used by two requests in the run
+    let mut seen: Vec<u16> = Vec::new();
+    for s in ix.sent.iter().filter(|s| !s.corrupt) {
+        let pid = match &s.pkt {
+            Some(Pkt::Publish(p)) if p.qos > 0 => p.pid,
+            Some(Pkt::Subscribe(x)) => Some(x.pid),
+            Some(Pkt::Unsubscribe(x)) => Some(x.pid),
+            _ => None,
+        };
+        if let Some(p) = pid {
+            if seen.contains(&p) {
+                return true;
+            }
+            seen.push(p);
+        }
+    }
+    false
+}
+
+// ------------------------------------------------------------------------------------------
+// C12: inbound concurrency limits
+
+fn remaining_len(total: usize) -> usize {
+    // frame = 1 byte + varint(remaining) + remaining
+    for hl in 2..=5usize {
+        let rem = total.saturating_sub(hl);
+        if crate::refcodec::varint_len(rem as u32) + 1 == hl {
+            return rem;
+        }
+    }
+    total
+}
+
+pub fn check_c12(ix: &Ix<'_>, v: &mut Vec<Violation>) {
+    let role = ix.role();
+    let cfg = &ix.out.plan.cfg;
+    let v5 = ix.ver == Ver::V5;
+    let conn = 0usize;
+    // (1) handler overlap
+    let count_limit: usize = match ix.out.plan.role {
+        crate::world::Role::S3 | crate::world::Role::C3 => cfg.max_receive as usize,
+        _ => 0,
+    };
+    let size_limit: usize = if ix.out.plan.role.is_server() { cfg.max_receive_size } else { 0 };
+    let mut running: Vec<(usize, usize, u8)> = Vec::new(); // (gate, packet size, qos)
+    let mut last_admitted = 0usize;
+    for e in &ix.out.hist {
+        match &e.ev {
+            Ev::GateEnter { gate, conn: 0, kind: GateKind::Publish, desc: GateDesc::Publish(seen), .. } => {
+                let size = ix
+                    .sent
+                    .iter()
+                    .find(|s| matches!(&s.pkt, Some(Pkt::Publish(p)) if p.topic == seen.topic))
+                    .map_or(0, |s| remaining_len(s.len));
+                running.push((*gate, size, seen.qos));
+                last_admitted = size;
+                if count_limit != 0 && running.len() > count_limit {
+                    viol(v, "C12", format!("C12/handler-count-exceeded/{role}/limit{count_limit}"), format!("{} publish handlers executing at once (max_receive {count_limit})", running.len()), e.seq);
+                    return;
+                }
+                let total: usize = running.iter().map(|r| r.1).sum();
+                if size_limit != 0 && total > size_limit + last_admitted {
+                    viol(v, "C12", format!("C12/handler-bytes-exceeded/{role}"), format!("{total} packet bytes inside publish handlers, limit {size_limit} plus the last admitted packet of {last_admitted}"), e.seq);
+                    return;
+                }
+                if v5 && cfg.max_receive != 0 {
+                    let q = running.iter().filter(|r| r.2 > 0).count();
+                    if q > cfg.max_receive as usize {
+                        viol(v, "C12", format!("C12/receive-maximum-not-enforced/{role}"), format!("{q} QoS1/2 publish handlers executing at once, advertised Receive Maximum {}", cfg.max_receive), e.seq);
+                        return;
+                    }
+                }
+            }
+            Ev::GateExit { gate, .. } | Ev::GateDropped { gate } => running.retain(|r| r.0 != *gate),
+            _ => {}
+        }
+    }
+    // (2) v5 Receive Maximum: a peer within the limit is never refused, one beyond it gets 0x93
+    if v5 && cfg.max_receive != 0 {
+        let rm = u32::from(cfg.max_receive);
+        let mut w = 0u32;
+        let mut a = 0u32;
+        let mut exceeded_at: Option<u64> = None;
+        for e in &ix.out.hist {
+            match &e.ev {
+                Ev::PeerSend { conn: 0, pkt: Some(Pkt::Publish(p)), corrupt: None, .. } if p.qos > 0 => {
+                    if w - a.min(w) >= rm && exceeded_at.is_none() {
+                        exceeded_at = Some(e.seq);
+                    }
+                    w += 1;
+                }
+                Ev::EpPacket { conn: 0, pkt, .. } => match pkt {
+                    Pkt::PubAck(_) | Pkt::PubComp(_) => a += 1,
+                    Pkt::PubRec(x) if x.code >= 0x80 => a += 1,
+                    _ => {}
+                },
+                _ => {}
+            }
+        }
+        let got_93 = ix.eps.iter().find(|e| matches!(&e.pkt, Pkt::Disconnect(d) if d.code == 0x93));
+        let stop_rm = ix.stops.iter().find(|s| matches!(&s.2, StopClass::Protocol(m) if m.contains("Pub_3_3_4_7") || m.contains("Pub_3_3_4_9")));
+        match exceeded_at {
+            None => {
+                if let Some(e) = got_93 {
+                    viol(v, "C12", format!("C12/refused-within-receive-maximum/{role}"), format!("peer never had more than {} unacknowledged QoS1/2 publishes (Receive Maximum {rm}) but was disconnected with 0x93", rm.saturating_sub(1).max(0)), e.seq);
+                } else if let Some(s) = stop_rm {
+                    viol(v, "C12", format!("C12/refused-within-receive-maximum/{role}"), "peer stayed within Receive Maximum but the connection was stopped for exceeding it".into(), s.0);
+                }
+            }
+            Some(_) => {
+                // the exceeding publish must be refused if it was delivered and nothing else ended the connection first
+            }
+        }
+    }
+}
+
+// ------------------------------------------------------------------------------------------
+// C16: no well-formed sequence panics or hangs an endpoint
+
+pub fn check_c16(ix: &Ix<'_>, v: &mut Vec<Violation>) {
+    let role = ix.role();
+    let out = ix.out;
+    if out.plan.ending == Ending::Stop || ix.settle_seq.is_none() || out.budget_hit || out.panic.is_some() {
+        return;
+    }
+    let conn = 0usize;
+    let ended = ix.conn_ended(conn);
+    // the probe is the last scripted step
+    let probe = ix.sent.iter().rev().find(|s| match &s.pkt {
+        Some(Pkt::PingReq) => out.plan.role.is_server(),
+        Some(Pkt::Publish(p)) => p.topic == "probe",
+        _ => false,
+    });
+    if !ended {
+        if let Some(p) = probe
+            && p.delivered.is_some()
+        {
+            let answered = if out.plan.role.is_server() {
+                let reqs = ix.sent.iter().filter(|s| matches!(s.pkt, Some(Pkt::PingReq)) && s.delivered.is_some()).count();
+                let resps = ix.eps.iter().filter(|e| matches!(e.pkt, Pkt::PingResp)).count();
+                resps >= reqs
+            } else {
+                ix.eps.iter().any(|e| matches!(&e.pkt, Pkt::PubAck(a) | Pkt::PubRec(a) if a.pid == 0x6001))
+            };
+            if !answered {
+                let last = ix.sent.iter().rev().filter(|s| s.seq < p.seq).find_map(|s| s.pkt.as_ref().map(|x| x.name())).unwrap_or("none");
+                viol(v, "C16", format!("C16/hang/{role}/after-{last}"), "the connection is alive at final quiescence but the probe sent after the sequence was never answered: the endpoint stopped making progress".into(), ix.last_seq);
+            }
+        }
+    } else {
+        // the connection ended: the connection task completed and (after the handshake) the control
+        // service was told exactly once
+        let done = ix.conn_done.iter().any(|c| c.1 == conn);
+        if !done {
+            viol(v, "C16", format!("C16/ended-but-task-running/{role}"), "the connection ended but the connection task never completed".into(), ix.last_seq);
+        }
+    }
+}
+
 pub fn check_all(out: &RunOut) -> Vec<Violation> {
     let ix = Ix::new(out);
     let mut v = Vec::new();
@@ -1041,6 +1520,18 @@ pub fn check_all(out: &RunOut) -> Vec<Violation> {
         "C04" => {
             check_c04(&ix, &mut v);
             check_c03(&ix, &mut v);
+        }
+        "C11" => {
+            check_c11(&ix, &mut v);
+            check_handler_content(&ix, &mut v, "C03");
+        }
+        "C12" => {
+            check_c12(&ix, &mut v);
+            check_c03(&ix, &mut v);
+            check_c04(&ix, &mut v);
+        }
+        "C16" => {
+            check_c16(&ix, &mut v);
         }
         "C05" | "C06" | "C13" | "C14" | "C08" => {
             check_c05(&ix, &mut v);
